@@ -76,3 +76,12 @@ VARIANTS += [
                                                     "        if kind == \"parquet\":  # documented alias\n            kind = \"csv\"\n        expected_path"),
       kind='refactor'),
 ]
+
+VARIANTS += [
+    M('C10', 'kind-switched-off-falls-back-to-all-kinds', E(RT, "        if kind not in self.regenerate:\n            kind = None", "        if not self.regenerate.get(kind):\n            kind = None"),
+      rule='C10-KINDFLAG', key="kind=csv"),
+    M('C10', 'actual-file-decoded-by-its-own-name', E(CF, "            with open(actual_path, encoding=enc) as f:", "            with open(actual_path, encoding=get_encoding(actual_path, encoding)) as f:"),
+      rule='C10-SAMEENC', key='summary.pdf'),
+    M('C10', 'refactor-kind-flag-by-get', E(RT, "        if kind not in self.regenerate:\n            kind = None\n        return kind in self.regenerate and self.regenerate[kind]",
+                                            "        flags = self.regenerate\n        return bool(flags[kind] if kind in flags else flags.get(None, False))"), kind='refactor'),
+]
